@@ -149,6 +149,15 @@ func SimpleNames(t *rapid.T, n int, prefix string) []string {
 			base[i] = prefix + "t" + strconv.Itoa(i)
 		}
 	}
+	// one name list in ten carries '%' followed by a letter that fmt reads as a verb (sample
+	// names such as "s_10%", annotations such as height_95%_HPD are common): text that is
+	// printed through a format string shows it
+	if rapid.IntRange(0, 9).Draw(t, "percent") == 6 {
+		verbs := []string{"%d", "%s", "%v", "%", "%%", "%_"}
+		for i := range base {
+			base[i] += verbs[i%len(verbs)]
+		}
+	}
 	if n <= 1 {
 		return base
 	}
@@ -213,7 +222,7 @@ func HostileLabel(t *rapid.T, inner bool) string {
 func comment(t *rapid.T) string {
 	switch rapid.IntRange(0, 3).Draw(t, "ck") {
 	case 0:
-		return rapid.SampledFrom([]string{"", "&date=\"2001.5\"", "&!color=#ff0000", "a b", "x[y", "(", ",", ":", ";", ";;", " lead", "trail ", "1.5", "a:1,b;c", "\t", "&mut={A,B}"}).Draw(t, "catom")
+		return rapid.SampledFrom([]string{"", "&date=\"2001.5\"", "&!color=#ff0000", "a b", "x[y", "(", ",", ":", ";", ";;", " lead", "trail ", "1.5", "a:1,b;c", "\t", "&mut={A,B}", "&height_95%_HPD={1.5,2}", "100%s"}).Draw(t, "catom")
 	case 1:
 		return rapid.StringMatching(`[a-z0-9 ,;:()\[=&"]{0,10}`).Draw(t, "cre")
 	}
